@@ -520,6 +520,10 @@ class ScriptBackend(TrialBackend):
         res[RES] = r
         res[ST_WORKER_TIMESTAMP] = self.emitted
         res[ST_WORKER_TIME] = r * (1 + tid % 3) / 4.0
+        if self.p.get("worker_iter"):
+            # the counter of the worker's Reporter: it starts again at 0 in every run of a trial
+            run.n_reported = getattr(run, "n_reported", 0) + 1
+            res["st_worker_iter"] = run.n_reported - 1
         style = self.p.get("style", "plain")
         if style in ("cost", "rich"):
             res[ST_WORKER_COST] = r * (1 + tid % 2) / 8.0
